@@ -111,6 +111,10 @@ def write_tlv(data: dict):
         length = len(value)
         pos = 0
 
+        # An empty value is a valid item with zero length
+        if length == 0:
+            tlv += tag + b"\x00"
+
         # A tag with length > 255 is added multiple times and concatenated into
         # one buffer when reading the TLV again.
         while pos < len(value):
